@@ -41,6 +41,12 @@ def _eval_variant(task):
         ctx = evaluate(mod, prop, front.Repo(root, overrides), tier, seed)
         if kind == 'equivalent':
             new_v = {k[:2] for k in _viol_keys(ctx)} - {k[:2] for k in base}
+            if _W.get('floor') is not None:
+                decided = len([o for o in ctx.obs if o.status in ('holds', 'violated')])
+                if decided < _W['floor']:
+                    return kind, name, 'noisy', ['FLOOR: only %d obligations decided (< %d): the check would exit 2 (analysis error) on this rewrite' % (decided, _W['floor'])]
+            if _W.get('details'):
+                return kind, name, 'silent' if not new_v else 'noisy', sorted('%s: %s' % (o.rule, o.detail[:170]) for o in ctx.obs if o.status == 'violated' and (o.rule, o.where) in new_v)
             return kind, name, 'silent' if not new_v else 'noisy', sorted(k[0] for k in new_v)
         new_v = _viol_keys(ctx) - base
         hit = any(r == k[0] or k[0].startswith(r) for k in new_v for r in rules) if rules else bool(new_v)
@@ -157,7 +163,7 @@ def sensitivity(mod, prop, root, tier, seed, jobs=None):
                 tasks.append(('seeded', d.name, ov, []))
     if not tasks:
         return res
-    _W.update(mod=mod, prop=prop, root=root, tier=tier, seed=seed, base=_viol_keys(evaluate(mod, prop, front.Repo(root), tier, seed)))
+    _W.update(mod=mod, prop=prop, root=root, tier=tier, seed=seed, base=_viol_keys(evaluate(mod, prop, front.Repo(root), tier, seed)), floor=None, details=False)
     jobs = jobs or int(os.environ.get('VERIF_JOBS', '0') or 0) or min(16, os.cpu_count() or 1)
     for kind, name, status, fired in _run_tasks(tasks, jobs):
         if kind == 'breaking':
@@ -214,4 +220,12 @@ def run_property(prop, tier, seed, root, replay=None):
                 ctx.note('sensitivity: equivalent variants that raised a report: %s' % ', '.join(s['noisy']))
             if s.get('seeded_missed'):
                 ctx.note('sensitivity: stored seeded changes no longer reported: %s' % ', '.join(s['seeded_missed']))
+        if tier == 'thorough':
+            # false-alarm hunt: behaviour-preserving rewrites of every function the check consults must not raise a report
+            from . import eqfuzz
+            t = time.time()
+            r = eqfuzz.sweep(mod, prop, root)
+            extra['rewrite_sweep'] = {'rewrites': r['rewrites'], 'by_kind': r['by_kind'], 'raising_a_report': ['%s %s' % (n, f) for n, f in r['noisy']], 'wall_s': round(time.time() - t, 2)}
+            if r['noisy']:
+                ctx.note('rewrite sweep: behaviour-preserving rewrites that raised a report: %s' % ', '.join(n for n, f in r['noisy'][:5]))
     return report.finish(ctx, mod.FLOOR, mod.EXPLANATION, mod.TRUSTED, mod.ASSUMPTIONS, extra=extra)
